@@ -80,6 +80,13 @@ Definition count_marker (o : obs) (m : str) : nat :=
   | _ => O
   end.
 
+(* every clause of the observation belongs to the marker's rule instance (the case has one rule instance only) *)
+Definition no_foreign (o : obs) (m : str) : bool :=
+  match o with
+  | ObsErr cs => forallb (fun s => contains s m) cs
+  | _ => true
+  end.
+
 (* a clause as the generator expects it: custom-message clause at a path, default-wording clause at
    a path, a fixed text, a group clause *)
 Inductive exp :=
@@ -140,7 +147,7 @@ Definition spec_ok (q : specq) (o : obs) : bool :=
   | SSize r lo hi v marker =>
     match measure v with
     | Some x => sizeable v && Bool.eqb (has_marker o marker) (negb (in_set r lo hi x))
-                && (count_marker o marker <=? 1)%nat
+                && (count_marker o marker <=? 1)%nat && no_foreign o marker
     | None => false     (* the generator must stay inside the property's domain *)
     end
   | SFmt f v marker =>
